@@ -165,6 +165,37 @@ def rule_pure_observers(ctx, only_timestamps=False):
             path = prog.call_path(o, lambda y: y == site) or [o]
             r.violate(o, k, d, 'observer %s may %s (%s) via %s' % (o, k, d, ' -> '.join(x.split('::')[-1] for x in path)),
                       where=ctx.where(site), path=path, expected='no such effect reachable from a pure observation')
+    # (unsync) the catch-up work an observer does on entry is the SAME deterministic step every other operation starts with: an extra
+    # contains_key then only does earlier what the next operation would have done anyway.  Sibling check against get: same steps, same order.
+    if not only_timestamps:
+        from .roles import named as _nm2
+        steps = {_nm2(ctx, 'unsync.evict_expired'): 'expire', _nm2(ctx, 'unsync.evict_lru'): 'evict'}
+
+        def prologue(fn):
+            seqs = set()
+            try:
+                ps = ctx.symex(inline_depth=3, loop_visits=2, inline_pred=lambda n_, bb, d: False if n_ in steps else None).run(fn)
+            except PathLimit:
+                raise CheckFailure('PURE-observers: path limit in %s' % fn)
+            for p in ps:
+                if p.diverged:
+                    continue
+                seq = []
+                for e in p.events:
+                    if e[0] == 'call' and e[1] in steps:
+                        seq.append(steps[e[1]])
+                    elif e[0] == 'call' and str(e[1]).startswith('std::collections::HashMap::'):
+                        break
+                seqs.add(tuple(seq))
+            return seqs
+        obs, ref = 'unsync::cache::Cache::contains_key', 'unsync::cache::Cache::get'
+        if obs in prog.bodies and ref in prog.bodies:
+            a_, b_ = prologue(obs), prologue(ref)
+            r.instance(observer=obs, entry_steps=sorted(a_), same_as=ref, reference_steps=sorted(b_), ok=a_ == b_)
+            if a_ != b_:
+                r.violate(obs, 'observer-prologue-differs', 'order', 'the catch-up steps contains_key runs on entry %s differ from those of get %s: an inserted contains_key makes a different '
+                          'expiry / eviction decision than the operation that would otherwise have run them next' % (sorted(a_), sorted(b_)), where=ctx.where(obs),
+                          expected='the same prologue as get: evict_expired_if_needed(); evict_lru_entries();')
     r.require_floor(len(observers), 'observer entry points')
     r.assumptions.append('user callbacks (Hash/Eq/Clone/Debug, weigher) have no handle on cache internals')
     return r
@@ -414,6 +445,32 @@ def rule_sketch_structure(ctx):
         if not grows:
             r.violate(ens.nid, 'realloc-without-growth', 'table', 'ensure_capacity replaces the table on a path where it is not established that the new size is larger: recorded counts are wiped',
                       where=ctx.where(ens.nid), expected='if self.table.len() >= table_size { return }')
+    # --- the index mask belongs to the table: table_mask is written exactly on the paths that replace the table, with (new length - 1);
+    # nothing else writes it (a mask for another length sends every hash to slots its counters were not recorded in)
+    nmask = 0
+    for p in ctx.symex(inline_depth=1).run(ens.nid):
+        if p.diverged:
+            continue
+        wt = [e for e in p.events if e[0] == 'write' and isinstance(e[1], tuple) and e[1][0] == 'fld' and e[1][2] == 'table']
+        wm = [e for e in p.events if e[0] == 'write' and isinstance(e[1], tuple) and e[1][0] == 'fld' and e[1][2] == 'table_mask']
+        nmask += 1
+        rel = True
+        if wt and wm:
+            mv = wm[-1][2]
+            size = mv[2] if (isinstance(mv, tuple) and mv and mv[0] == 'bin' and mv[1] in ('Sub', 'wrapping_sub', 'saturating_sub') and mv[3] == ('c', 1)) else None
+            rel = size is not None and any(x == size for x in subterms(wt[-1][2]))
+        ok = (bool(wt) == bool(wm)) and rel
+        r.instance(function=ens.nid, table_replaced=bool(wt), mask_written=bool(wm), mask_is_new_length_minus_1=rel if (wt and wm) else None, ok=ok)
+        if not ok:
+            r.violate(ens.nid, 'mask-without-table', 'table_mask', 'ensure_capacity writes table_mask %s: the mask no longer matches the length of the table the counters '
+                      'were recorded in, so estimates drop without an aging step' % ('on a path that keeps the table' if (wm and not wt) else
+                                                                                    ('not on a path that replaces the table' if (wt and not wm) else 'with something else than the new length - 1')),
+                      where=ctx.where(ens.nid, (wm or wt)[-1][3]), expected='table and table_mask = table_size - 1 are assigned together, after the growth test')
+    for w in sorted(ctx.eff.who_has(('write', SK, 'table_mask'))):
+        okw = w in (ens.nid,) or w.endswith(('::default', '::new'))
+        r.instance(writer_of='FrequencySketch.table_mask', function=w, ok=okw)
+        if not okw:
+            r.violate(w, 'mask-writer', 'table_mask', '%s writes FrequencySketch.table_mask outside ensure_capacity' % w, where=ctx.where(w))
     # --- enable test false once enabled
     for nid, b in sorted(prog.bodies.items()):
         if b.kind == 'closure' or b.locals[0]['ty']['s'] != 'bool':
